@@ -38,7 +38,7 @@ CHECKS = {
         category="translation_validation",
         technique="bounded-exhaustive enumeration of Python programs over a construct grammar (small scope), each translated by the real front end and compared with CPython's own AST",
         text="~4800 (thorough ~20000) programs: every expression constructor (operators, comparisons, boolean, conditional, lambdas with every parameter kind, calls with every argument kind, subscripts/slices, displays, comprehensions, f-strings, literals) with every depth-1 expression in every operand slot, statement constructors nested to block depth 2 (assignments, control flow, try/with, def with every parameter kind, decorators, async, class, imports, match/type/walrus), and the expressions again inside constraints, generators and repetition bounds with a symbol reference. ast.dump of CPython's parse of the text Fandango will execute must equal ast.dump of CPython's parse of the source (constant-only f-strings folded, symbol identifiers renamed) unless Fandango rejects the program.",
-        note="Small-scope translation validation, not a proof for all programs. A rejection is never a violation; acceptance rate and rejected constructs are reported. Four defect classes are recorded known findings (identified by the culprit construct), one was repaired.",
+        note="Small-scope translation validation, not a proof for all programs. A rejection is never a violation; acceptance rate and rejected constructs are reported. Four defect classes are recorded known findings (identified by the culprit construct), two were repaired.",
         design="4 C08",
     ),
     "C09": dict(
